@@ -5,10 +5,13 @@ import os
 
 PROP = {
     "bin": "c01",
-    "coq_targets": ["theories/Isa/C01Check", "theories/Isa/X86Proofs"],
+    "coq_targets": ["theories/Isa/C01Check", "theories/Isa/X86Proofs", "theories/Isa/X86Tie"],
     "n": {"quick": int(os.environ.get("C01_N", "2000")), "thorough": 40000},
     "theorems": ["reg_get_set_correct", "reg_set_prefix_refuted", "of_add_correct", "of_sub_correct", "cf_sub_correct",
-                 "cf_add_correct", "sf_correct", "set_zf_den", "set_sf_den", "set_cf_den", "set_of_den", "lift_mov_reg_reg_correct", "add_reg_ops_correct", "sub_reg_ops_correct", "cmp_reg_ops_correct", "logic_reg_ops_correct", "incdec_reg_ops_correct", "il_run_one_block"],
+                 "cf_add_correct", "sf_correct", "set_zf_den", "set_sf_den", "set_cf_den", "set_of_den", "lift_mov_reg_reg_correct",
+                 "add_reg_ops_correct", "sub_reg_ops_correct", "cmp_reg_ops_correct", "logic_reg_ops_correct", "incdec_reg_ops_correct",
+                 "il_run_one_block", "add_sim", "sub_sim", "cmp_sim", "logic_sim", "incdec_sim", "mov_sim", "tie_transfers",
+                 "ck_tie_is_syntactic_tie", "cc_condition_correct", "setcc_sim", "movx_sim", "addr_expr_correct", "lea_sim"],
     "rule": "instruction encodings enumerated from the opcode tables of harness/src/bin/c01.rs (mnemonic x operand size 8/16/32/64(/128) x "
             "register/memory/immediate forms x legacy high-byte registers x rep/repne x both modes, plus 412 operand-aliasing forms -- same-register pairs, sub-register-of-destination sources, base/index = destination -- and 136 address-size-prefixed forms (amd64 0x67 32-bit addressing for lea/mov/add, x86 0x67 16-bit addressing for lea) -- that are visited first, 1 in 3, so the quick tier contains all 548 of them; about 5 800 forms); per memory operand the six states cycle through plain / wrapping (index with the top address bit set, base solved modulo 2^asz so that base+index*scale+disp wraps 2^16, 2^32 or 2^64 into a scratch page) / boundary-index scenarios, prefixed registers carry garbage above the address width, lea sums are placed at wrap-by-a-little, 2^asz-1 and 2^(asz-1), visited in a "
             "seed-dependent permutation, wrapping around with fresh operands/states when n exceeds the table; each encoding with 6 "
@@ -23,9 +26,15 @@ PROP = {
                     "results the SDM calls undefined are not compared; PF/AF are not modelled by the lifter and not compared (PF is an input to jp/setp/cmovp)",
                     "32-bit mode has no processor oracle on this host: x86 forms are compared with Isa/X86.v only (the same spec functions are validated through the amd64 encodings)"],
     "partial": [
-        "theorem + syntactic tie (all states): the register access layer X86Register::get/set (all sub-register kinds, both tables), the flag helpers set_zf/set_sf/set_of/set_cf, "
-        "and, at the level of the emitted operation list run by Sem.exec_op, mov/add/sub/cmp/and/or/xor with register destination and register/immediate source and inc/dec register "
-        "(result, ZF/SF/OF/CF = X86.alu/X86.un, memory unchanged); not proved: the glue from the operation list to X86Run.run_instr/X86.step as a whole, memory operands, push/pop, all other builders",
+        "THEOREM + SYNTACTIC TIE, all states (Props/C01.v: *_sim theorems + tie_transfers): for these forms, for every well-formed machine state and EVERY IL state embedding it, "
+        "X86Run.run_instr on the real lifter's dumped IL (carried over by the syntactic tie, checked each run) ends in a state embedding X86.step's result -- all GPRs, "
+        "CF/ZF/SF/OF/DF (where the spec defines them), memory, next address. Forms: mov/add/sub/cmp/and/or/xor with register destination (al/ah/ax/eax/rax-style, both modes) and "
+        "register or immediate source; inc/dec register; setcc r8 for the 14 codes that do not read PF; movzx/movsx/movsxd with register source; lea r, [base+index*scale+disp] at every "
+        "address size incl. the 0x67 prefix (wrap at 2^16/2^32/2^64). In the quick tier: 326 of 2 000 encodings (evidence extra.stats['encodings:sim-theorem-and-tie']); "
+        "7 more (xor x,x lifted to the constant 0; setp/setnp) have the tie but no theorem. Also proved for all values: X86Register::get/set, set_zf/sf/of/cf, cc_condition for all 16 codes, "
+        "Mode::operand_value address expressions = X86.ea",
+        "NOT mirrored / no theorem (processor + spec on sampled states only): every MEMORY-operand form of mov/ALU (loads/stores), push/pop, adc/sbb, test/neg/not, xchg/xadd, "
+        "shifts/rotates, shld/shrd, mul/div, bt*, bsf/bsr, string instructions, cmovcc/jcc/loop (multi-block graphs), call/ret/jmp/leave",
         "processor + specification comparison on sampled states only ([D]): every other accepted form of the core classes (ALU incl. adc/sbb/test/neg/not, all memory forms, movzx/movsx/movsxd/lea/xchg/push/pop/call/ret/leave, jmp/jcc/setcc/cmovcc/loop/jecxz, shl/shr/sar/rol/ror/shld/shrd, mul/imul/div/idiv, cbw..cqo, bt/bts/btr/btc, bsf/bsr, movs/cmps/stos/lods/scas with rep, clc/stc/cmc/cld/std)",
         "architecturally undefined (form, state) combinations are never compared: X86.step returns XUnspec there and the oracle is silent (only the tie is evaluated) -- "
         "shld/shrd r/m16 with a masked count above 16 (imm8 or cl; the only count > operand size combination that exists), besides the per-component undefined results "
